@@ -168,3 +168,41 @@ package ast
 //@ func isDurUnit
 //@   props C05
 //@   pure
+
+// ---------------------------------------------------------------- parser.go, json.go (C05)
+// The error message for an unexpected token quotes a window of the text around it; the window
+// stays inside the text for every token position the lexer can produce (0 <= pos <= len(text)),
+// also for an error in the first bytes of a script. (The parser reports errors by panicking with
+// an error value that Parse recovers: `maypanic`; a runtime panic is NOT recovered there.)
+//@ func (*parser).errorf
+//@   trusted
+//@   maypanic
+//@   modifies nothing
+//@ func (TokenType).String
+//@   trusted
+//@   pure
+//@ func (*parser).unexpected
+//@   props C05
+//@   maypanic
+//@   opt strings=seq
+//@   requires p != nil && p.lex != nil && p.lex.input == p.text && 0 <= tok.pos && tok.pos <= len(p.text)
+//@   loop 1
+//@     modifies elems(expectedStrs)
+//@     invariant 0 <= _i && _i <= len(expected) && len(expectedStrs) == len(expected)
+
+// A JSON document is turned into AST nodes by its "typeOf" fields: an unknown type is an error,
+// never a nil node whose methods are then called.
+//@ func (JSONNode).TypeOf
+//@   trusted
+//@   modifies nothing
+//@ func (Node).unmarshal
+//@   trusted
+//@   modifies nothing
+//@ func (JSONNode).getNode
+//@   props C05
+// ... and the accessors that read one field of a JSON object, for any object: a value or an error.
+//@ sweep ^\(JSONNode\)\.(Has|Field|String|Int64|Float64|Strings|Duration|Regex|Bool|Operator|FunctionType|NodeList|Node|IDNode|RefNode|CheckTypeOf)$
+//@   props C05
+// ... and building each kind of node from its JSON object.
+//@ sweep ^\(\*\w+Node\)\.unmarshal$
+//@   props C05
